@@ -576,8 +576,8 @@ SIZES = {
     "quick": dict(refine_cfgs=["MC_CacheKVImpl_q.cfg"], edge_cfgs=["MC_CacheKV_edges_q.cfg"], edge_frac=0.35,
                   sim_num=150, sim_depth=30, sim_keep=2, rand_prog=150, rand_ops=60,
                   conc_cases=60, conc_reps=30),
-    "thorough": dict(refine_cfgs=["MC_CacheKVImpl.cfg", "MC_CacheKVImpl_it.cfg", "MC_CacheKVImpl_nest.cfg"],
-                     edge_cfgs=["MC_CacheKV_edges1.cfg", "MC_CacheKV_edges2.cfg", "MC_CacheKV_edges3.cfg"], edge_frac=1.0,
+    "thorough": dict(refine_cfgs=["MC_CacheKVImpl_q.cfg", "MC_CacheKVImpl.cfg", "MC_CacheKVImpl_it.cfg", "MC_CacheKVImpl_nest.cfg"],
+                     edge_cfgs=["MC_CacheKV_edges_q.cfg", "MC_CacheKV_edges1.cfg", "MC_CacheKV_edges2.cfg"], edge_frac=1.0,
                      sim_num=600, sim_depth=40, sim_keep=3, rand_prog=1500, rand_ops=80,
                      conc_cases=400, conc_reps=60),
 }
